@@ -127,6 +127,39 @@ CHECKS["C34"] = _bounded(
   "bounded; whole-second instants; the per-zone deductive encoding of DESIGN.md is not built "
   "(binary floating point with fractional-minute LMT offsets)", "5/C34")
 
+CHECKS["C20"] = _bounded(
+  "Run-time contract on relabeling.prepare_inserts (called as PositionColumn does): total, "
+  "existing order kept, all positions finite and distinct, new rows placed where requested "
+  "(before equal existing positions) in request order; exhaustive over a 19-value adversarial "
+  "float pool for small lists, 1200 fed-back insertion sequences, engine histories checking "
+  "that position columns hold distinct values.",
+  "bounded; the float lemmas planned in DESIGN.md are not built; known finding: position "
+  "column created on a non-empty table", "5/C20")
+CHECKS["C21"] = _bounded(
+  "Run-time contract on identifiers.pick_table_ident / pick_col_ident / pick_col_ident_list and "
+  "UserActions._pick_col_name: valid identifier, not a keyword, no leading underscore/digit, "
+  "table ids capitalised, case-insensitively different from existing and from the rest of the "
+  "batch, valid unused names kept; all strings up to length 3-4 over an 11-symbol alphabet, all "
+  "keywords, random Unicode; engine invariant on every tableId/colId.",
+  "bounded; ASCII reading of 'already valid' (DESIGN.md 5/C21); known finding: sibling summary "
+  "tables", "5/C21")
+CHECKS["C37"] = _bounded(
+  "Run-time contract on textbuilder Replacer/Combiner/Text compositions built from data: "
+  "produced text == direct patch application, mapping an output patch back covers exactly the "
+  "corresponding source characters, patches spanning inputs are refused; exhaustive small "
+  "texts/patch sets and nestings, every output range.",
+  "bounded; known finding #12 (end offset adjacent to a deletion) and its consequences", "5/C37")
+CHECKS["C38"] = dict(
+  level="other",
+  text="The single configuration (this tree) is checked completely: gen_js_schema.main() output "
+       "== app/common/schema.ts character for character; schema.ts parsed independently and "
+       "compared with schema.schema_create_actions(); gristTypes.ts _defaultValues == "
+       "usertypes._type_defaults in both directions.",
+  note="exhaustive over one point; the TS files are parsed with regular expressions (a layout "
+       "that cannot be parsed yields UNDECIDED, never a pass)",
+  technique="run-time postcondition on the generator + structural comparison (single configuration)",
+  design_ref="5/C38", engine="rtc")
+
 NOT_APPLICABLE = {
   "C30": "quantifies over interpreter configurations (PYTHONHASHSEED) and relates two separate "
          "processes; no pre/postcondition on a call inside one process can mention the hash seed "
